@@ -132,11 +132,11 @@ PROPS = {
             "no_reuse_while_cached", "lossy_ok", "tracking_sound", "find_accepted"]],
         # other families' workloads (with their own specification oracles) re-run under non-default table
         # configurations: --ct style,stale,maxsize
-        "quick": [fam("ctable"), fam("ctstress"), fam("arith", ct="1,0,1024", cases=300), fam("reach", ct="3,2,0", cases=600, allow="F4,F8,F9,F10"),
+        "quick": [fam("ctable"), fam("ctstress"), fam("arith", ct="1,0,1024", cases=300), fam("reach", ct="3,2,0", cases=600, allow="F4,F7,F8,F9,F10"),
                   fam("image", ct="2,1,1024", cases=800), fam("copy", ct="1,2,0", cases=300), fam("oplife", ct="3,1,1024", cases=250)],
         # (case counts bounded: under the sanitizer the full thorough workloads of five other families took 48 minutes)
         "thorough": [fam("ctable", "asan"), fam("ctstress", "asan"), fam("arith", "asan", ct="1,0,1024", cases=1500), fam("arith", "asan", ct="3,2,0", cases=1500),
-                     fam("reach", "asan", ct="3,2,0", allow="F4,F8,F9,F10", cases=5000), fam("reach", "asan", ct="1,1,1024", allow="F4,F8,F9,F10", cases=5000),
+                     fam("reach", "asan", ct="3,2,0", allow="F4,F7,F8,F9,F10", cases=5000), fam("reach", "asan", ct="1,1,1024", allow="F4,F7,F8,F9,F10", cases=5000),
                      fam("image", "asan", ct="2,1,1024", cases=8000), fam("copy", "asan", ct="1,2,0", cases=1500), fam("setops", "asan", ct="3,0,1024", cases=2000),
                      fam("oplife", "asan", ct="1,1,1024", cases=1500)],
         "leanchecker": ["MeddlyModel.State.ComputeTable"],
@@ -589,8 +589,8 @@ PROPS = {
                   'Meddly.Reach.satur_eq_lfp_partial',
                   'Meddly.Spec.ReachTables.reachList_spec',
                   'Meddly.Spec.ReachTables.distList_spec'],
-     'quick': [{'family': 'reach', 'flavor': 'plain', 'args': {'allow': 'F4,F8,F9,F10'}}],   # F4, F10 repaired by fix: commits: no steering
-     'thorough': [{'family': 'reach', 'flavor': 'asan', 'args': {'allow': 'F4,F8,F9,F10'}}],
+     'quick': [{'family': 'reach', 'flavor': 'plain', 'args': {'allow': 'F4,F7,F8,F9,F10'}}],   # F4, F10 repaired by fix: commits: no steering
+     'thorough': [{'family': 'reach', 'flavor': 'asan', 'args': {'allow': 'F4,F7,F8,F9,F10'}}],
      'leanchecker': ['MeddlyModel.Ops.Reach', 'MeddlyModel.Spec.ReachTables'],
      'design_ref': 'DESIGN.md §5 C08',
      'level_text': 'Lean theorems over an arbitrary finite state space (any enumeration `states` of a type with decidable equality, any relation, any initial '
